@@ -261,6 +261,9 @@ type Mutations struct {
 	// CleanupExitRerunsCleanup: when a cleanup form leaves the unwind-protect by return-from / return / go,
 	// the cleanup forms are started a second time.
 	CleanupExitRerunsCleanup bool
+	// LambdaConsumesNilReturn: the call of an anonymous function consumes a (return ..) / (return-from nil ..) that
+	// passes through it on its way to a nil block outside and yields its value as the value of the call.
+	LambdaConsumesNilReturn bool
 }
 
 // ---------------------------------------------------------------- interpreter
@@ -1091,6 +1094,9 @@ func (in *Interp) apply(fn *Closure, args []Value) Value {
 		ne.vars[p] = &cell{args[i]}
 	}
 	if fn.Name == "" {
+		if in.Mut.LambdaConsumesNilReturn {
+			return in.consumeNilReturn(fn.Body, ne)
+		}
 		return in.progn(fn.Body, ne)
 	}
 	return in.block(fn.Name, ne, func(be *env) Value { return in.progn(fn.Body, be) })
@@ -1253,4 +1259,17 @@ func (in *Interp) toFunction(v Value) *Closure {
 	}
 	in.signal("type-error", "%s is not a function", Show(v))
 	return nil
+}
+
+func (in *Interp) consumeNilReturn(body []Node, e *env) (v Value) {
+	defer func() {
+		if r := recover(); r != nil {
+			if be, ok := r.(*blockExit); ok && be.frame.name == "" {
+				v = be.val
+				return
+			}
+			panic(r)
+		}
+	}()
+	return in.progn(body, e)
 }
